@@ -10,15 +10,26 @@ fn join(v: &[u64]) -> String {
     v.iter().map(|x| x.to_string()).collect::<Vec<_>>().join(",")
 }
 
+fn hf_code(h: HashFunctions) -> u8 {
+    match h {
+        HashFunctions::Murmur64Dna => 1,
+        HashFunctions::Murmur64Protein => 2,
+        HashFunctions::Murmur64Dayhoff => 3,
+        HashFunctions::Murmur64Hp => 4,
+        _ => 0,
+    }
+}
+
 fn show_vec(m: &KmerMinHash) -> String {
     let ab = match m.abunds() {
         Some(a) => join(&a),
         None => "-".to_string(),
     };
     format!(
-        "ok num={} mh={} tr={} mins={} ab={} md5={}",
+        "ok num={} mh={} hf={} tr={} mins={} ab={} md5={}",
         m.num(),
         m.max_hash(),
+        hf_code(m.hash_function()),
         m.track_abundance() as u8,
         join(&m.mins()),
         ab,
@@ -32,9 +43,10 @@ fn show_bt(m: &KmerMinHashBTree) -> String {
         None => "-".to_string(),
     };
     format!(
-        "ok num={} mh={} tr={} mins={} ab={} md5={}",
+        "ok num={} mh={} hf={} tr={} mins={} ab={} md5={}",
         m.num(),
         m.max_hash(),
+        hf_code(m.hash_function()),
         m.track_abundance() as u8,
         join(&m.mins()),
         ab,
@@ -181,6 +193,59 @@ fn run_twin() {
                 "md5" => {
                     if n.len() != 1 {
                         return None;
+                    }
+                }
+                "enab" => {
+                    if n.len() != 1 {
+                        return None;
+                    }
+                    b[h].as_ref()?;
+                    let r1 = v[h].as_mut()?.enable_abundance();
+                    let r2 = b[h].as_mut()?.enable_abundance();
+                    if r1.is_err() || r2.is_err() {
+                        return Some(format!("err vec={} bt={}", r1.is_err() as u8, r2.is_err() as u8));
+                    }
+                }
+                "disab" => {
+                    if n.len() != 1 {
+                        return None;
+                    }
+                    b[h].as_ref()?;
+                    v[h].as_mut()?.disable_abundance();
+                    b[h].as_mut()?.disable_abundance();
+                }
+                "sethf" => {
+                    if n.len() != 2 {
+                        return None;
+                    }
+                    let hf = match n[1] {
+                        1 => HashFunctions::Murmur64Dna,
+                        2 => HashFunctions::Murmur64Protein,
+                        3 => HashFunctions::Murmur64Dayhoff,
+                        4 => HashFunctions::Murmur64Hp,
+                        _ => return None,
+                    };
+                    b[h].as_ref()?;
+                    let r1 = v[h].as_mut()?.set_hash_function(hf.clone());
+                    let r2 = b[h].as_mut()?.set_hash_function(hf);
+                    if r1.is_err() || r2.is_err() {
+                        return Some(format!("err vec={} bt={}", r1.is_err() as u8, r2.is_err() as u8));
+                    }
+                }
+                "downmh" => {
+                    // downmh R G max_hash
+                    if n.len() != 3 {
+                        return None;
+                    }
+                    let g = n[1] as usize;
+                    let r1 = v.get(g)?.as_ref()?.clone().downsample_max_hash(n[2]);
+                    let r2 = b.get(g)?.as_ref()?.clone().downsample_max_hash(n[2]);
+                    match (r1, r2) {
+                        (Ok(a), Ok(c)) => {
+                            v[h] = Some(a);
+                            b[h] = Some(c);
+                        }
+                        (a, c) => return Some(format!("err vec={} bt={}", a.is_err() as u8, c.is_err() as u8)),
                     }
                 }
                 // tovec / tobt H : show the conversion next to the twin of the target type; nothing is replaced
